@@ -233,6 +233,7 @@ let rec flatten_assoc (f : M.Tff.tff_formula) : M.Tff.tff_formula =
      | x :: rest -> List.fold_left (fun acc y -> TBin (c, acc, y)) x rest
      | [] -> f)
   | TBin (c, l, r) -> TBin (c, flatten_assoc l, flatten_assoc r)
+  | TNot (TEq (l, r)) -> TNeq (l, r)      (* tptp4X re-prints ~ a = b as a != b *)
   | TNot g -> TNot (flatten_assoc g)
   | TQ (q, vs, g) ->
     (* tptp4X also merges ![A]: ![B]: F into ![A,B]: F *)
@@ -241,7 +242,8 @@ let rec flatten_assoc (f : M.Tff.tff_formula) : M.Tff.tff_formula =
      | g' -> TQ (q, vs, g'))
   | g -> g
 (* tptp4X re-prints (A & B) & (C & D) as A & B & C & D and merges nested blocks of one quantifier:
-   readings are compared modulo the associativity of & and | and the merging of blocks *)
+   readings are compared modulo the associativity of & and |, the merging of blocks and
+   ~ a = b  ==  a != b *)
 let flatten_problem (p : M.Tff.tff_problem) : M.Tff.tff_problem =
   let open M.Tff in
   { p with tp_formulas = List.map (fun a -> { a with n_formula = flatten_assoc a.n_formula }) p.tp_formulas }
